@@ -98,7 +98,7 @@ pub fn apply_bfault(bytes: &[u8], f: BFault) -> (Vec<u8>, bool) {
         return (v, false);
     }
     match f {
-        BFault::None => (v, false),
+        BFault::None | BFault::ClearAt(_) => (v, false),
         BFault::Drop(i) => {
             v.remove(i as usize % n);
             (v, true)
@@ -188,5 +188,6 @@ pub fn bfault_name(f: &BFault) -> &'static str {
         BFault::Flip(..) => "bit_flip_in_byte",
         BFault::Swap(_) => "swap_adjacent",
         BFault::Repl(..) => "garbage_replace",
+        BFault::ClearAt(_) => "clear_mid_sequence",
     }
 }
